@@ -95,6 +95,8 @@ type c3Target struct {
 	Ver    bool     `json:"ver"`
 	Keys   []string `json:"keys"`
 	Src    c3TSrc   `json:"src"`
+	// not read by the spec: the version id is spelled "null"
+	VerNull bool `json:"vernull,omitempty"`
 }
 type c3Check struct {
 	Role     string `json:"role"`
@@ -517,6 +519,13 @@ func (w *c3Worker) exec(v *c3Vec) (done bool, err error) {
 		t.Owner = "c3oth"
 	}
 	t.SrcEnc = v.Target.Src.Enc
+	// the reserved version id "null" (the version written before versioning was enabled) is a
+	// version id like every other: a read that names it is a read BY VERSION, whether such a
+	// version exists or not (every third read-only vector that names a version spells it so)
+	if t.VersionID != "" && !rt.Mutating && v.ID%3 == 0 {
+		t.VersionID = "null"
+		v.Target.VerNull = true
+	}
 	rq := rt.Build(t)
 	roots := w.fx.dataDirs()
 	if rt.Kind == "admin" {
@@ -679,6 +688,9 @@ func c3Fingerprint(v *c3Vec, class, culprit string) (string, string) {
 	}
 	if v.Target.Ver {
 		detail += "?versionId"
+		if v.Target.VerNull {
+			detail += "=null"
+		}
 	}
 	if rt != nil && rt.Shape == "copy" {
 		detail += fmt.Sprintf(" from %s/%s", v.Target.Src.Bucket, v.Target.Src.Key)
@@ -706,7 +718,7 @@ func c3Fingerprint(v *c3Vec, class, culprit string) (string, string) {
 // ---- the check ----
 
 func C03(c *core.Ctx, replay string) {
-	c.Rule = "A seeded sample of the bounded input space (route x caller class x auth state of target and other bucket x target key / version / copy source) is instantiated by TLC (S3AccessVec), set up through the real API by root, executed as one request by the caller and each observation validated by TLC against S3Access!Decision (S3AccessTrace). Non-trivial: a vector with a non-admin caller on a route whose decision depends on the bucket policy / ACL."
+	c.Rule = "A seeded sample of the bounded input space (route x caller class x auth state of target and other bucket x target key / version / copy source) is instantiated by TLC (S3AccessVec), set up through the real API by root, executed as one request by the caller and each observation validated by TLC against S3Access!Decision (S3AccessTrace). A last stage replaces the policy of a bucket over and over (two documents that both refuse an account the ACL would let in) while six clients read as that account: every read must be refused (PolicySwap). Non-trivial: a vector with a non-admin caller on a route whose decision depends on the bucket policy / ACL."
 	c.Assumptions = []string{
 		"the action vocabulary is the one of the gateway's policy language: where S3 has a distinct ...Version action that the gateway does not know (DeleteObjectVersion, GetObjectVersionTagging, GetObjectVersionAttributes) the non-version action is the intended one",
 		"ACL permission needed: READ for non-mutating routes, WRITE for mutating ones, READ_ACP / WRITE_ACP for GET / PUT ?acl",
@@ -1056,6 +1068,9 @@ func C03(c *core.Ctx, replay string) {
 	c.Extra["routes_executed"] = len(routeSeen)
 	c.Extra["per_route"] = rs
 
+	if replay == "" {
+		c03PolicySwap(c)
+	}
 	if os.Getenv("C03_NOMC") != "" {
 		c.Inconclusive("C03_NOMC set: the exhaustive lemma check was skipped")
 	}
